@@ -284,8 +284,9 @@ def c_round_int_mpf(rng, fn):
 
 def c_to_int(rng, fn):
     s = int_like(rng, 53)
-    if fin(s) and s[2] > 5000:
-        s = (s[0], s[1], s[2] % 3000, s[3])
+    if fin(s) and abs(s[2]) > 5000:
+        # Coq's Z.shiftr/Z.shiftl iterate n times: keep shift amounts moderate on the model side
+        s = (s[0], s[1], s[2] % 6000 - 3000, s[3])
     r = rng.choice([-1, 0, 1, 2, 3, 4])
     rnd = None if r < 0 else RND[r]
     exact = None
